@@ -405,6 +405,10 @@ class Evaluator:
             return st
         if isinstance(s, ast.Assign):
             v = self.ev(s.value, st)
+            if st.attrs.get("__dead__") == T.TRUE:
+                # x = helper(...) where the helper never returns on this path: the path ends here
+                st.attrs = {k: v_ for k, v_ in st.attrs.items() if k != "__dead__"}
+                return None
             for t in s.targets:
                 self.assign(t, v, st, s)
             return st
@@ -546,7 +550,25 @@ class Evaluator:
             r1 = T.mk_and([c] + [p_.cond for p_ in left1])
             r2 = T.mk_and([T.mk_not(c)] + [p_.cond for p_ in left2])
             self.push_pc(T.mk_or([r1, r2]), True, s.test)
-        return State(self._merge_maps(c, s1.attrs, s2.attrs), self._merge_locs(c, s1.locs, s2.locs))
+        merged = State(self._merge_maps(c, s1.attrs, s2.attrs), self._merge_locs(c, s1.locs, s2.locs))
+        # a local that denotes the object held by a self attribute on both branches still denotes it after the join
+        for name, lv in list(merged.locs.items()):
+            v1, v2 = s1.locs.get(name), s2.locs.get(name)
+            if v1 is None or v2 is None or v1 is v2:
+                continue
+            for k in merged.attrs:
+                a1, a2 = s1.attrs.get(k), s2.attrs.get(k)
+                if a1 is None and a2 is None:
+                    continue
+                a1 = a1 if a1 is not None else atom(("attr", k))   # not written on that branch: still the entry value
+                a2 = a2 if a2 is not None else atom(("attr", k))
+                if a1 is not None and a2 is not None and (a1 is v1) and (a2 is v2 or (a2 == v2 and (v2.single_atom() or ("",))[0] in ("attr", "loopvar"))):
+                    merged.locs[name] = merged.attrs[k]
+                    break
+                if a1 is not None and a2 is not None and (a2 is v2) and (a1 == v1 and (v1.single_atom() or ("",))[0] in ("attr", "loopvar")):
+                    merged.locs[name] = merged.attrs[k]
+                    break
+        return merged
 
     def exec_loop(self, s, st):
         fr = self.frames[-1]
